@@ -183,6 +183,9 @@ func workerLoop(t *testing.T, cfg Config, progress *atomic.Int64, emit func(reco
 		st.Steps += int64(rr.Steps)
 		st.FakeNanos += rr.FakeNanos
 		st.Strategies[c.Sched.Strategy]++
+		if c.Sched.Auto {
+			st.Strategies["(of these, with automatic yield points)"]++
+		}
 		for k, v := range rr.Fired {
 			st.Fired[k] += v
 		}
